@@ -218,6 +218,7 @@ type BSeg struct {
 	D   *Doc    // one JSON value
 	Sym []*Term // symbolic bytes (concrete count)
 	Pad *Term   // run of ' ' of symbolic length (64-bit)
+	Opq *Term   // unknown bytes of symbolic length (64-bit)
 }
 
 type Blob struct {
@@ -241,6 +242,8 @@ func (b *Blob) String() string {
 			p = append(p, fmt.Sprintf("‹%d sym bytes›", len(s.Sym)))
 		case s.Pad != nil:
 			p = append(p, "‹pad "+s.Pad.Key()+"›")
+		case s.Opq != nil:
+			p = append(p, "‹opaque "+s.Opq.Key()+"›")
 		default:
 			p = append(p, fmt.Sprintf("%q", s.B))
 		}
@@ -263,11 +266,11 @@ func blobDoc(d *Doc) *Blob { return &Blob{Segs: []BSeg{{D: d}}} }
 func (b *Blob) norm() *Blob {
 	var out []BSeg
 	for _, s := range b.Segs {
-		if s.D == nil && s.Sym == nil && s.Pad == nil {
+		if s.D == nil && s.Sym == nil && s.Pad == nil && s.Opq == nil {
 			if len(s.B) == 0 {
 				continue
 			}
-			if n := len(out); n > 0 && out[n-1].D == nil && out[n-1].Sym == nil && out[n-1].Pad == nil {
+			if n := len(out); n > 0 && out[n-1].D == nil && out[n-1].Sym == nil && out[n-1].Pad == nil && out[n-1].Opq == nil {
 				out[n-1].B = append(append([]byte{}, out[n-1].B...), s.B...)
 				continue
 			}
@@ -350,7 +353,7 @@ func (b *Blob) ConcreteBytes() ([]byte, bool) {
 			var sb strings.Builder
 			s.D.render(&sb)
 			out = append(out, sb.String()...)
-		case s.Sym != nil || s.Pad != nil:
+		case s.Sym != nil || s.Pad != nil || s.Opq != nil:
 			return nil, false
 		default:
 			out = append(out, s.B...)
@@ -378,6 +381,8 @@ func (b *Blob) Len(g *G) Value {
 			t = BVBin("bvadd", t, BVConst(uint64(len(s.Sym)), 64))
 		case s.Pad != nil:
 			t = BVBin("bvadd", t, s.Pad)
+		case s.Opq != nil:
+			t = BVBin("bvadd", t, s.Opq)
 		default:
 			t = BVBin("bvadd", t, BVConst(uint64(len(s.B)), 64))
 		}
@@ -407,6 +412,8 @@ func (b *Blob) ToStr(g *G) Str {
 			}
 		case s.Pad != nil:
 			segs = append(segs, Seg{Q: "pad(" + s.Pad.Key() + ")"})
+		case s.Opq != nil:
+			segs = append(segs, Seg{Q: "opq(" + s.Opq.Key() + ")"})
 		default:
 			segs = append(segs, Seg{C: string(s.B)})
 		}
@@ -424,7 +431,7 @@ func (b *Blob) byteTerms() ([]*Term, bool) {
 		switch {
 		case s.Sym != nil:
 			out = append(out, s.Sym...)
-		case s.Pad != nil:
+		case s.Pad != nil || s.Opq != nil:
 			return nil, false
 		case s.D != nil:
 			if !s.D.concrete() {
@@ -470,7 +477,15 @@ func (b *Blob) CopyFrom(g *G, src Value) Value {
 	}
 	s := g.asBlob(src)
 	sl := s.Len(g).(Int)
-	if b.sinkLen == nil || !termEq(sl.Term(64), b.sinkLen) {
+	if b.sinkLen == nil {
+		if b.got == nil {
+			b.got = s
+		} else {
+			b.got = blobConcat(g, b.got, s)
+		}
+		return sl
+	}
+	if !termEq(sl.Term(64), b.sinkLen) {
 		g.inconclusive("copy between blobs of different symbolic length")
 	}
 	b.sink = false
@@ -499,8 +514,8 @@ func (b *Blob) IndexAddr(g *G, idx Int) Value {
 		switch {
 		case s.D != nil:
 			*cell = s.D.firstByte(g)
-		case s.Pad != nil:
-			g.inconclusive("index into padding")
+		case s.Pad != nil || s.Opq != nil:
+			g.inconclusive("index into padding/opaque bytes")
 		case s.Sym != nil:
 			*cell = mkInt(s.Sym[0])
 		default:
@@ -514,8 +529,8 @@ func (b *Blob) IndexAddr(g *G, idx Int) Value {
 		switch {
 		case s.D != nil:
 			*cell = s.D.lastByte(g)
-		case s.Pad != nil:
-			g.inconclusive("index into padding")
+		case s.Pad != nil || s.Opq != nil:
+			g.inconclusive("index into padding/opaque bytes")
 		case s.Sym != nil:
 			*cell = mkInt(s.Sym[len(s.Sym)-1])
 		default:
@@ -570,7 +585,7 @@ func (b *Blob) trimSpace() *Blob {
 			segs = segs[1:]
 			continue
 		}
-		if s.D == nil && s.Sym == nil {
+		if s.D == nil && s.Sym == nil && s.Opq == nil {
 			i := 0
 			for i < len(s.B) && isSp(s.B[i]) {
 				i++
@@ -589,7 +604,7 @@ func (b *Blob) trimSpace() *Blob {
 			segs = segs[:len(segs)-1]
 			continue
 		}
-		if s.D == nil && s.Sym == nil {
+		if s.D == nil && s.Sym == nil && s.Opq == nil {
 			i := len(s.B)
 			for i > 0 && isSp(s.B[i-1]) {
 				i--
@@ -607,7 +622,7 @@ func (b *Blob) trimSpace() *Blob {
 
 func (b *Blob) hasSymBytes() bool {
 	for _, s := range b.Segs {
-		if s.Sym != nil {
+		if s.Sym != nil || s.Opq != nil {
 			return true
 		}
 	}
